@@ -13,6 +13,7 @@ import (
 // operators may be printed in either spelling (AltLogical).
 type PrintOpts struct {
 	Full       bool
+	Atoms      bool // with Full: literals and names are parenthesised too
 	AltLogical bool // print && / || with the Bangla words
 }
 
@@ -50,7 +51,7 @@ func (o PrintOpts) opText(op string) string {
 // at least level min is required.
 func (o PrintOpts) Expr(n *Node, min int) string {
 	s := o.expr(n)
-	if Level(n) < min || (o.Full && Level(n) < LevelAtom) {
+	if Level(n) < min || (o.Full && (Level(n) < LevelAtom || (o.Atoms && n.Kind != "group"))) {
 		return "(" + s + ")"
 	}
 	return s
